@@ -48,8 +48,10 @@ def un(v):
     number of seconds (equal-but-not-identical argument types: the library converts with float())"""
     if v is None:
         return None
+    if v == S:
+        return True           # float(True) == 1.0
     if v % S == 0 and (v // S) % 2 == 0:
-        return v // S
+        return v // S         # ints, negative ones too
     return v / S
 
 
@@ -258,7 +260,7 @@ def gen_tymer(rng):
     t0, t1 = val(0, 40), val(-10, 40)
     k0, k1 = rng.choice([0, 1, 32, 128, 1024]) , rng.choice([1, 32, 512])
     w = rng.choice([0, 0, 0, 1, None])
-    dur = rng.choice([None, 0, val(0, 20), val(0, 20), val(-5, 5)])
+    dur = rng.choice([None, 0, val(0, 20), val(0, 20), val(-5, 5), val(-8, -1), -1])
     start = rng.choice([None, None, val()])
     ops = []
     cur = w
@@ -276,9 +278,9 @@ def gen_tymer(rng):
             i = cur if (cur is not None and rng.random() < 0.8) else rng.choice([0, 1])
             ops.append(("tyme", i, val(-20, 80)))        # arbitrary, including rewinds
         elif r < 0.72 or style < 0.25:
-            ops.append(("restart", rng.choice([None, None, None, val(0, 20), 0, val(-5, 5)])))
+            ops.append(("restart", rng.choice([None, None, None, val(0, 20), 0, val(-5, 5), val(-8, -1), -1])))
         elif r < 0.92:
-            d = rng.choice([None, None, val(0, 20), 0])
+            d = rng.choice([None, None, val(0, 20), 0, val(-8, -1), -1])
             s = rng.choice([None, None, val()])
             if cur is None and s is None and rng.random() < 0.6:
                 s = val()
@@ -517,7 +519,7 @@ def gen_mono(rng):
     grid = rng.choice([1, 1, 32, 1024])
     base = rng.choice([0, 5 * S, 1000 * S, 1700000000 * S, rng.randint(-50, 50) * grid])
     nops = rng.choice([1, 2, 3, 5, 8, 12, 20, rng.randint(0, 40)])
-    dur = rng.choice([0, rng.randint(0, 30) * grid, rng.randint(0, 30) * grid, rng.randint(0, 200) * grid])
+    dur = rng.choice([0, rng.randint(0, 30) * grid, rng.randint(0, 30) * grid, rng.randint(0, 200) * grid, -rng.randint(1, 30) * grid, -1])
     start = None if rng.random() < 0.75 else base + rng.randint(-40, 40) * grid
     retro = rng.random() < 0.85
     ops = []
@@ -534,10 +536,10 @@ def gen_mono(rng):
         elif r < 0.72:
             ops.append(("duration",))
         elif r < 0.86:
-            ops.append(("restart", rng.choice([None, None, None, None, rng.randint(0, 30) * grid, 0])))
+            ops.append(("restart", rng.choice([None, None, None, None, rng.randint(0, 30) * grid, 0, -rng.randint(1, 30) * grid])))
         else:
             s = None if rng.random() < 0.75 else base + rng.randint(-40, 40) * grid
-            ops.append(("start", rng.choice([None, None, rng.randint(0, 30) * grid, 0]), s))
+            ops.append(("start", rng.choice([None, None, rng.randint(0, 30) * grid, 0, -rng.randint(1, 30) * grid]), s))
     extra = []
     for op in ops:
         extra.append(op)
@@ -1144,7 +1146,7 @@ def gen_fmono(rng):
     import math
     pick = lambda: rng.choice(FVALS) * rng.choice([1, 1, 3, 7, 0.1])
     base = rng.choice([0.0, 0.1, 1000.7, 1700000000.123, 5e-3])
-    dur = pick()
+    dur = rng.choice([pick(), pick(), pick(), -pick(), -0.0, -5e-324, -1e-17])
     ops = []
     for _ in range(rng.choice([1, 2, 3, 5, 8, 12])):
         r = rng.random()
@@ -1159,9 +1161,9 @@ def gen_fmono(rng):
         elif r < 0.8:
             ops.append(("duration",))
         elif r < 0.93:
-            ops.append(("restart", rng.choice([None, None, None, pick()])))
+            ops.append(("restart", rng.choice([None, None, None, pick(), -pick(), -0.0])))
         else:
-            ops.append(("start", rng.choice([None, pick()])))
+            ops.append(("start", rng.choice([None, pick(), -pick(), -1e-17])))
     # readings: aim at the deadline and its float neighbours, with backward steps in between
     incs = [rng.choice([0.0, pick() * 0.01]), rng.choice([0.0, pick() * 0.01, -pick()])]
     c = base + incs[0] + incs[1]
@@ -1497,7 +1499,7 @@ def gen_ptimer(rng):
     grid = rng.choice([1, 1, 32, 1024])
     kind = rng.choice(["timer", "async", "async"])
     base = rng.choice([0, 5 * S, 1000 * S, rng.randint(-50, 50) * grid])
-    dur = rng.choice([0, rng.randint(0, 30) * grid, rng.randint(0, 30) * grid])
+    dur = rng.choice([0, rng.randint(0, 30) * grid, rng.randint(0, 30) * grid, -rng.randint(1, 30) * grid, -1])
     start = None if rng.random() < 0.7 else base + rng.randint(-40, 40) * grid
     ops = []
     for _ in range(rng.choice([1, 2, 3, 5, 8, 12, rng.randint(0, 25)])):
@@ -1511,10 +1513,10 @@ def gen_ptimer(rng):
         elif r < 0.76:
             ops.append(("duration",))
         elif r < 0.9:
-            ops.append(("restart", rng.choice([None, None, None, rng.randint(0, 30) * grid, 0])))
+            ops.append(("restart", rng.choice([None, None, None, rng.randint(0, 30) * grid, 0, -rng.randint(1, 30) * grid])))
         else:
             s = None if rng.random() < 0.6 else base + rng.randint(-40, 40) * grid
-            ops.append(("start", rng.choice([None, None, rng.randint(0, 30) * grid, 0]), s))
+            ops.append(("start", rng.choice([None, None, rng.randint(0, 30) * grid, 0, -rng.randint(1, 30) * grid]), s))
     for _ in range(rng.choice([0, 0, 1, 2])):
         ops.insert(rng.randint(0, len(ops)), ("bad", rng.choice(["start-dur", "start-start", "restart-dur"]), rng.randint(0, 1)))
     need = 2 + len(ops)
@@ -1656,7 +1658,7 @@ def gen_fptimer(rng):
             ops.append(("duration",))
             continue
         if r < 0.3:
-            d = rng.choice([None, None, pick()])
+            d = rng.choice([None, None, pick(), -pick(), -0.0])
             ops.append(("restart", d))
             dd = d if d is not None else stop - start
             start, stop = stop, stop + dd
